@@ -77,6 +77,49 @@ def weighted_sum(n_consumers, steps):
     return log, bad
 
 
+def gridded_sum():
+    """WeightedSum on gridded data, 1 or 2 input pairs, read by a consumer on the same cells in another layout (decreasing y axis):
+    every delivered cell must hold sum(value * weight) of the cell at the same coordinates"""
+    viol = []
+    g_src = fm.UniformGrid((4, 3))                                      # 3 x 2 cells
+    g_cons = fm.UniformGrid((4, 3), axes_increase=[True, False])
+    base = np.arange(6, dtype=float).reshape(g_src.data_shape) + 1.0
+    for pairs in (["A"], ["A", "B"]):
+        for cons_grid, gname in ((g_src, "same layout"), (g_cons, "decreasing y axis")):
+            comps = []
+            ws = fm.components.WeightedSum(inputs=pairs)
+            for k, nm in enumerate(pairs):
+                val = fm.components.CallbackGenerator({"Out": (lambda t, k=k: base * (k + 1) * t.day, fm.Info(time=None, grid=g_src, units="m"))}, start=T0, step=D)
+                wgt = fm.components.CallbackGenerator({"Out": (lambda t, k=k: np.full(g_src.data_shape, 0.5 + k), fm.Info(time=None, grid=g_src, units=""))}, start=T0, step=D)
+                comps += [(nm, val, wgt)]
+            got = []
+            cons = fm.components.DebugConsumer({"In": fm.Info(time=None, grid=cons_grid, units=None)}, start=T0, step=D,
+                                               callbacks={"In": (lambda n, d, t: got.append((t, np.asarray(d.magnitude)[0].copy())))})
+            comp = fm.Composition([c for _n, v, w in comps for c in (v, w)] + [ws, cons], print_log=False, log_level="ERROR")
+            for nm, v, w in comps:
+                v.outputs["Out"] >> ws.inputs[nm]
+                w.outputs["Out"] >> ws.inputs[nm + "_weight"]
+            ws.outputs["WeightedSum"] >> cons.inputs["In"]
+            tag = f"WeightedSum with input pairs {pairs}, consumer grid with {gname}"
+            try:
+                with _guard.limit(120.0):
+                    comp.run(end_time=T0 + 3 * D)
+            except Exception as e:  # noqa
+                viol.append(f"{tag}: {type(e).__name__}: {str(e)[:100]}")
+                return viol
+            for t, arr_ in got:
+                want = sum(base * (k + 1) * t.day * (0.5 + k) for k in range(len(pairs)))
+                if cons_grid is g_cons:
+                    want = want[:, ::-1]          # the consumer stores the same cells with the y axis reversed
+                if not np.allclose(arr_, want, rtol=1e-9):
+                    viol.append(f"{tag}: at {t:%Y-%m-%d} the consumer received {arr_.tolist()}, the cell-wise sum is {want.tolist()}")
+                    return viol
+            if not got:
+                viol.append(f"{tag}: nothing delivered")
+                return viol
+    return viol
+
+
 def main():
     viol = []
     known = []
@@ -106,6 +149,10 @@ def main():
                 break
         if viol:
             break
+    if not viol:
+        v2 = gridded_sum()
+        cases += 4
+        viol += v2
     seen = set()
     kn = [k for k in known if not (k["case"] in seen or seen.add(k["case"]))]
     res = {"evaluations": n + cases, "distinct_nontrivial": n + cases, "violations": [{"case": x} for x in viol[:3]] + kn,
